@@ -19,7 +19,9 @@ RULE = ('streams: (a) the fragment streams of pretty / minify / obfuscating prin
         'programs, single and 2-4 chained source files; (b) synthetic well-formed streams (explicit positions with '
         'forward / backward jumps and line changes, implied 0:0 and unmapped None fragments, renamed identifiers '
         'shorter / longer than the original, multi-line tokens, newline fragments, 1-5 interleaved sources, leading '
-        'unmapped fragment, empty lines) x {normalize on, off}; a case = (stream, normalize); non-trivial = at least 3 '
+        'unmapped fragment, empty lines; one stream in eleven on the scale of a minified bundle: jumps of thousands of '
+        'columns and lines), (c) four programs with a 1500-column line / 1300 lines, alone and followed by a short file, '
+        'x {normalize on, off}; a case = (stream, normalize); non-trivial = at least 3 '
         'explicitly positioned fragments and at least one line break or rename; distinct by (stream, flag).')
 ASSUMPTIONS = ['refsm decoder (written from the Source Map V3 document) and its generated-position tracker',
                'well-formed = shape required by the docstring of write(): line and column both present or both absent; '
